@@ -67,18 +67,18 @@ type funcsGen struct {
 	state   map[string]int           // 0 unseen, 1 in progress, 2 done ok, 3 unsupported
 	coqName map[string]string        // key -> emitted Coq name
 	sigs    map[string]*funcSig
-	taken   map[string]bool // Coq names already defined in the buffer / by us
+	taken   map[string]bool   // Coq names already defined in the buffer / by us
 	maps    map[string]string // package-level map tables already emitted: base name -> final name
 	order   []string
 }
 
 type funcSig struct {
-	params  []string // Coq binder texts "(v : Z)"
-	nparams int
-	result  string // Coq type inside res
-	kinds   []kind // result kinds
-	note    string // Go-level signature for the comment
-	structRecv bool // receiver is a struct: its fields are parameters; not callable from other translated code
+	params     []string // Coq binder texts "(v : Z)"
+	nparams    int
+	result     string // Coq type inside res
+	kinds      []kind // result kinds
+	note       string // Go-level signature for the comment
+	structRecv bool   // receiver is a struct: its fields are parameters; not callable from other translated code
 }
 
 var defRe = regexp.MustCompile(`(?m)^(?:Definition|Fixpoint|Inductive|Lemma|Theorem|Notation|Record)\s+([A-Za-z0-9_']+)`)
